@@ -280,6 +280,7 @@ class Analyzer:
         self.cmp_obs = {}  # (fn, bb of switch) -> operand intervals of the deciding comparison
         self.add_obs = {}  # (fn, bb of an Overflow:Add assert) -> (interval of a, interval of b)
         self.incr = {}  # (fn, bb of push/extend) -> max length increment
+        self.ctx_log = {}  # fn path -> set of analysed contexts (kept across partitions; read by obligations' requirements)
         self.call_ok_obs = {}  # (fn, bb of a call to a local fn) -> join over contexts of the `#ok` fact of its result (None = unknown)
         self.lossy_obs = {}  # (fn, kind, target type) -> (exact interval, target range): narrowing casts / saturating / wrapping ops that may lose value
         self.agg_obs = {}
@@ -556,6 +557,8 @@ class Analyzer:
         if sub:
             ctx = ctx + (tuple(sorted(sub.items())),)
         key = (path, ctx)
+        if getattr(self, "log_ctx", False):
+            self.ctx_log.setdefault(path, set()).add(ctx)
         if key in self.memo:
             return self.memo[key]
         if key in self.in_progress:
@@ -607,6 +610,11 @@ class Analyzer:
         self._len_safe = set()
         for l in self._mut_borrowed:
             if all(x is not None for x in flow.ref_sinks(f, l)):
+                self._len_safe.add(l)
+            # a reference to a slice: the length is part of the (immutable) fat pointer; writes through any
+            # re-borrow change elements, never the length
+            lt = f.locals[l]["ty"]
+            if lt.get("k") == "ref" and lt["ty"].get("k") == "slice":
                 self._len_safe.add(l)
         # reference-typed temporaries are views of their owner: their length facts are allowed even when
         # they are re-borrowed, and are dropped whenever the owner's may change (see call())
